@@ -60,10 +60,13 @@ func runC10(s *sess) map[string]any {
 	rounds := s.rounds(1500)
 	done := 0
 	t0 := time.Date(2024, 1, 1, 0, 0, 0, 0, time.UTC)
+	watchClock, stopNudger := nudger()
+	defer stopNudger()
 	for round := 0; round < rounds && s.more(); round++ {
 		var g, readers group
 		variant := round + s.seed
 		clk := clocktesting.NewFakeClock(t0)
+		watchClock(clk)
 		b := batcher.New[int, kval](10 * time.Millisecond)
 		b.WithClock(clk)
 
